@@ -9,6 +9,21 @@
 
 using namespace vh;
 
+// floats: value v <-> v + 0.5f, and 0 <-> a zero whose sign alternates from one call to the next: +0.0f and -0.0f are
+// equal elements with different bytes (so is every pair of values operator== of the element type calls equal)
+namespace vh {
+template <> struct Elem<float> {
+    static constexpr bool tracked = false;
+    static float make(int64_t v) { static bool neg = false; if (v == 0) { neg = !neg; return neg ? -0.0f : 0.0f; } return (float) v + 0.5f; }
+    static int64_t show(const float &x) {
+        if (x == 0.0f) return 0;
+        float f = x - 0.5f;
+        if (f == (float) (int64_t) f && f > -4e6f && f < 4e6f) return (int64_t) f;
+        return -424242;
+    }
+};
+}
+
 template <typename T, bool OW> struct Runner {
     using RB = tulz::RingBuffer<T, OW>;
     using E = Elem<T>;
@@ -93,6 +108,7 @@ template <typename T, bool OW> struct Runner {
             {
                 LogScope ls;
                 if (op[2] % 2 == 0) r = &buf[b]->push_back(x);
+                else if constexpr (std::is_same_v<T, float>) r = &buf[b]->emplace_back(E::make(op[2]));
                 else r = &buf[b]->emplace_back(op[2]);
             }
             refPushBack(ref[b], op[2]);
@@ -107,6 +123,7 @@ template <typename T, bool OW> struct Runner {
             {
                 LogScope ls;
                 if (op[2] % 2 == 0) r = &buf[b]->push_front(x);
+                else if constexpr (std::is_same_v<T, float>) r = &buf[b]->emplace_front(E::make(op[2]));
                 else r = &buf[b]->emplace_front(op[2]);
             }
             refPushFront(ref[b], op[2]);
@@ -274,7 +291,8 @@ int main() {
         if (c.lines.empty() || c.lines[0].size() < 3) { emit({PRE}); return; }
         emit({});
         bool ow = c.lines[0][0] != 0;
-        bool tracked = c.lines[0][2] != 0;
+        bool tracked = c.lines[0][2] == 1 || c.lines[0][2] == 2;
+        if (c.lines[0][2] == 3) { if (ow) { Runner<float, true> r; r.showEvents = false; r.run(c); } else { Runner<float, false> r; r.showEvents = false; r.run(c); } return; }
         bool ev = c.lines[0][2] == 1;
         auto go = [&](auto runner) { runner.showEvents = ev; runner.run(c); };
         if (tracked) { if (ow) go(Runner<Tracked, true>()); else go(Runner<Tracked, false>()); }
